@@ -19,12 +19,16 @@ def _leg(name, quick, thorough, **kw):
 PROP = dict(
     harnesses={_H: dict(sources=["harness/c13_terminal.cpp"])},
     legs=[
-        _leg("editor", 40000, 1500000),
+        _leg("editor", 60000, 3000000),
         # 30 reference forms x 7 fill levels x {leading blanks} x {follow-up kind}: every combination once
         _leg("histref", 840, 840, scalable=False, exhaustive=True),
-        _leg("hostile", 12000, 600000),
-        _leg("telnet", 3000, 200000),
-        _leg("tcprpc", 2000, 100000),
+        _leg("hostile", 20000, 1200000),
+        # every 3rd (quick) / 40th (thorough) case listens on a loopback TCP port, the rest on a unix-domain stream socket:
+        # closed TCP connections park ephemeral ports in TIME_WAIT for 60 s and the thorough volume would drain the range
+        _leg("telnet", 3000, 0),
+        _leg("tcprpc", 2000, 0),
+        _leg("telnet-thorough", 0, 500000, mode="telnet", args=["--watchdog", "30", "--tcp-every", "40"]),
+        _leg("tcprpc-thorough", 0, 300000, mode="tcprpc", args=["--watchdog", "30", "--tcp-every", "40"]),
     ],
     rule=("editor: one case = one Terminal (real epoll loop, recording Connection, probe function nodes /p /q /d/r /d/e/s) driven by 40-220 keys, "
           "generated online against the reference editor of harness/c13_ref.hpp: printable characters (all but '#'), Backspace 7f/08, Delete, Left, Right, Home, End, "
@@ -44,7 +48,7 @@ PROP = dict(
           "umounts) mutated while 1-4 sessions (all four option combinations) receive arbitrary bytes, dictionary soup of cut escape prefixes / CR / NUL / 0xFF, command lines over "
           "tree/ls/cd/help/pwd with generated paths, history references, 3000-character lines, `exit` repeated in one string; loop passes at random; sends to sessions torn down "
           "and a wrong onRecvString/onRecvWindowSize liveness answer are violations; finally a fresh session must execute `/zz_probe 42 'x y'` exactly. "
-          "telnet / tcprpc: the same Terminal behind Telnetd / TcpRpc on a loopback TCP port, 1-3 client sockets written in random interleaving and segmentation: clean clients "
+          "telnet / tcprpc: the same Terminal behind Telnetd / TcpRpc listening on a loopback TCP port (every 3rd case; every 40th in the thorough tier) or on a unix-domain stream socket (the others; same TcpServer/BufferedFd path), 1-3 client sockets written in random interleaving and segmentation: clean clients "
           "(keys unsplit, telnet commands DO/DONT/WILL/WONT/NOP/GA/SB NAWS/SB TTYPE/IAC IAC cut anywhere) are checked for probe invocations (reply markers in the byte stream), "
           "one prompt per Enter plus the greeting, one WONT per DONT, one NOP per NOP, Bye + EOF after exit; hostile clients send IAC soup, unterminated / nested / short SB blocks, "
           "0xFF runs, 60 KB lines, repeated exit, then half-close / close / RST; finally a fresh client's command must be executed. "
@@ -97,6 +101,6 @@ PROP = dict(
         # telnet IAC framing waits for complete commands
         "tcp_iac_cut_across_segments", "tcp_wont_replies_checked", "tcp_nop_replies_checked", "tcp_sb_truncated", "tcp_sb_naws_short_first_data", "tcp_sb_nested",
         "tcp_ff_runs", "tcp_truncated_iac_at_close", "tcp_rst_close", "tcp_half_close", "tcp_abrupt_close", "tcp_probe_calls_required_and_checked", "tcp_prompt_checks",
-        "tcp_liveness_probe_ok",
+        "tcp_liveness_probe_ok", "tcp_cases_over_loopback_tcp", "tcp_cases_over_unix_socket",
     ]},
 )
